@@ -399,6 +399,7 @@ class PCtx:
         self.chooser = chooser  # callable(n, descr) -> index, used for case splits
         self.incomplete = False
         self.prefer = {}      # var -> priority for being solved (higher first)
+        self.char = None      # a known prime characteristic (e.g. the group order N for scalar arithmetic in Z/N)
 
     # ---- normal form -----------------------------------------------------------------
     def _apply_subs(self, p):
@@ -441,12 +442,26 @@ class PCtx:
                 break
         return p
 
+    def _mod_char(self, p):
+        if self.char is None or not p.t:
+            return p
+        n = self.char
+        d = {}
+        for m, c in p.t.items():
+            c %= n
+            if c > n // 2:
+                c -= n
+            if c:
+                d[m] = c
+        return Poly(d)
+
     def nf(self, p):
         p = P(p)
         p = self._apply_subs(p)
         p = self._reduce(p)
         if self.subs:
             p = self._apply_subs(p)
+        p = self._mod_char(p)
         c, prim = p.primitive()
         return prim if c else ZERO
 
@@ -458,6 +473,10 @@ class PCtx:
     def _note_const(self, c):
         c = abs(int(c))
         if c in (0, 1):
+            return
+        if self.char is not None:
+            if c % self.char == 0:
+                raise Infeasible("an integer constant that is 0 in the known characteristic was used as a unit")
             return
         n = c
         f = 2
